@@ -870,6 +870,122 @@ func e4RelistThenWatchCase(seed uint64, n int) Case {
 	}}
 }
 
+// e4LostDeleteCase: round after round an object is learnt from the watch
+// (Create, sometimes Updates) and its Delete is lost by the stream; the NEXT
+// completed list - whichever its ordinal - must remove it ("after at most one
+// further relist"), and the subscriber must be told.
+func e4LostDeleteCase(seed uint64, n int) Case {
+	id := fmt.Sprintf("E4/lost-delete/%d/%d", seed, n)
+	return Case{ID: id, Desc: map[string]interface{}{"seed": seed, "n": n, "mode": "lost-delete"}, Bubble: true, Run: func(r *Res) {
+		rng := kit.NewRng(kit.Mix(seed, uint64(n)+4970))
+		P := 10 * time.Second
+		core := kit.NewCore(&kit.Plan{Seed: rng.U64(), PYield: 50})
+		srv := kit.NewPodServer(core)
+		srv.Put(kit.Pod("n0", "a", "", map[string]string{"l": "x"}))
+		srv.Put(kit.Pod("n1", "b", "", map[string]string{"l": "y"}))
+		var dropAt atomic.Int32 // delivery index (per session) of the Delete that gets lost
+		dropAt.Store(-1)
+		srv.WatchPlan = func(i int) kit.WatchFault {
+			f := kit.NoWatchFault()
+			f.Drop = map[int]bool{}
+			if d := int(dropAt.Load()); d >= 0 {
+				f.Drop[d] = true
+			}
+			return f
+		}
+		fam := filterFamily()
+		F := fam[[]int{0, 0, 2, 4}[rng.Intn(4)]]
+		g, err := newCtlRig(core, srv, P, F)
+		if err != nil {
+			r.Inc(err.Error())
+			return
+		}
+		defer g.shutdown(r, "C12")
+		sub, _ := g.ctl.Subscribe()
+		mir := startMirror("root-subscriber", sub.Events(), sub.Ready(), sub.Cache())
+		if !waitCh(g.ctl.Ready(), virtBound) {
+			r.V("C03", "never-ready", "controller not ready")
+			return
+		}
+		g.barrier()
+		s0, _ := cacheSnap(g.ctl.Cache())
+		mir.seed(s0)
+		waitList := func() bool {
+			have := 0
+			for _, lc := range srv.Lists() {
+				if lc.Returned {
+					have++
+				}
+			}
+			for i := 0; i < 400; i++ {
+				time.Sleep(P / 20)
+				now := 0
+				for _, lc := range srv.Lists() {
+					if lc.Returned {
+						now++
+					}
+				}
+				if now > have {
+					time.Sleep(100 * time.Millisecond)
+					g.barrier()
+					return true
+				}
+			}
+			return false
+		}
+		rounds := 3 + n%4
+		for round := 0; round < rounds; round++ {
+			// some rounds skip a list first, so that both parities of the list ordinal are met
+			if rng.Chance(40) {
+				if !waitList() {
+					r.V("C03", "relist-stopped", "no list within 20 periods")
+					return
+				}
+			}
+			nm := fmt.Sprintf("x%d", round%2) // the same two names come back
+			ups := rng.Intn(3)
+			dropAt.Store(int32(1 + ups))
+			// (the session opened after the last list has delivered nothing so far: the
+			// Create below is its delivery 0, the Delete its delivery 1+ups)
+			lbl := map[string]string{"l": "x"}
+			srv.Put(kit.Pod("n0", nm, "", lbl))
+			for i := 0; i < ups; i++ {
+				srv.Put(kit.Pod("n0", nm, "", map[string]string{"l": "x", "u": strconv.Itoa(i)}))
+			}
+			g.barrier()
+			if c, _ := cacheSnap(g.ctl.Cache()); F.Eval(kit.Pod("n0", nm, "", lbl)) {
+				if _, ok := c["n0/"+nm]; !ok {
+					r.Add("watch-create-not-seen", 1) // (nothing to lose then; not judged here)
+				}
+			}
+			srv.Delete("n0", nm) // lost by the stream
+			g.barrier()
+			if !waitList() {
+				r.V("C03", "relist-stopped", "no list within 20 periods")
+				return
+			}
+			want := F.Accepted(srv.Objects())
+			got, _ := cacheSnap(g.ctl.Cache())
+			r.Add("lost-delete-checks", 1)
+			if !got.Equal(want) {
+				r.V("C03", "not-converged", "round %d: n0/%s was learnt from the watch, its Delete was lost by the stream; one completed list later (list #%d, server quiet) the cache is %v, the server's accepted objects are %v", round, nm, len(srv.Lists()), got, want)
+				return
+			}
+			if core.Overruns() == 0 {
+				if ms := mir.snap(); !ms.Equal(got) {
+					r.V("C03", "mirror-diverged", "round %d: subscriber mirror %v != cache %v; last events: %s", round, ms, got, tailEvents(mir.events(), 6))
+					return
+				}
+				mir.report(r, "C03")
+			}
+			dropAt.Store(-1)
+		}
+		r.Add("lost-delete-cases", 1)
+		r.Key(id)
+		r.Sample = map[string]interface{}{"mode": "lost-delete", "filter": F.String(), "lists": len(srv.Lists()), "rounds": rounds}
+	}}
+}
+
 func init() {
 	register("E4", func(tier string, seed uint64) []Case {
 		var cases []Case
@@ -897,6 +1013,9 @@ func init() {
 		}
 		for i := 0; i < tierPick(tier, 96, 4800); i++ {
 			cases = append(cases, e4RelistThenWatchCase(seed, i))
+		}
+		for i := 0; i < tierPick(tier, 48, 2400); i++ {
+			cases = append(cases, e4LostDeleteCase(seed, i))
 		}
 		return cases
 	})
